@@ -190,14 +190,34 @@ if digests.get("default"):
         observed["ambient.clock_reads"] = json.dumps(clock_reads, sort_keys=True)
 
 # ---------------------------------------------------------------- 3. Send + Sync build probe
-rc, so, se = run(["cargo", "check", "--offline", "--manifest-path", os.path.join(ROOT, "probes/sendsync/Cargo.toml"), "--target-dir", os.path.join(OUT, "sendsync")])
-if rc == 0:
-    observed["probe.sendsync"] = "compiles (all public value types Send + Sync)"
-elif "E0277" in se and ("Send" in se or "Sync" in se):
-    bad = [l for l in se.splitlines() if "cannot be s" in l or "the trait `S" in l][:6]
-    violations.append(("c18:sendsync:public-type-not-send-sync", {"diagnostics": bad, "stderr": se[-1500:]}))
-else:
-    inconclusive.append("sendsync probe failed for another reason: " + se[-400:])
+# the probe's list is complete: every `pub struct` / `pub enum` declared in the sources is named in it (a type added
+# later is not silently left out: the verdict is then inconclusive until the probe lists it)
+import re as _re, glob as _glob
+_declared = set()
+for _f in _glob.glob(os.path.join(REPO, "src", "**", "*.rs"), recursive=True):
+    for _m in _re.finditer(r"^\s*pub (?:struct|enum) ([A-Za-z0-9_]+)", open(_f, errors="replace").read(), _re.M):
+        _declared.add(_m.group(1))
+_probe_src = open(os.path.join(ROOT, "probes/sendsync/src/lib.rs")).read()
+_missing = sorted(t for t in _declared if not _re.search(r"need::<%s[<>]" % t, _probe_src))
+observed["probe.sendsync.types-declared"] = len(_declared)
+if _missing:
+    inconclusive.append("public types not listed in the Send + Sync probe: " + ", ".join(_missing[:10]))
+# compiled against the crate in each feature set of the statement: auto traits can differ between configurations
+# (a field type chosen by cfg)
+ss_ok = []
+for cname, cflags in [("nostd", []), ("default", ["--features", "std"]), ("serialize", ["--features", "std,serialize"])]:
+    rc, so, se = run(["cargo", "check", "--offline", "--manifest-path", os.path.join(ROOT, "probes/sendsync/Cargo.toml"), "--target-dir", os.path.join(OUT, "sendsync-" + cname)] + cflags)
+    if rc == 0:
+        ss_ok.append(cname)
+    elif "E0277" in se and ("Send" in se or "Sync" in se or "cannot be s" in se):
+        bad = [l for l in se.splitlines() if "cannot be s" in l or "the trait `S" in l][:6]
+        violations.append(("c18:sendsync:%s:public-type-not-send-sync" % cname, {"configuration": cname, "diagnostics": bad, "stderr": se[-1500:]}))
+    else:
+        inconclusive.append("sendsync probe (%s) failed for another reason: " % cname + se[-400:])
+if len(ss_ok) == 3:
+    observed["probe.sendsync"] = "compiles in nostd / default / serialize (all public value types Send + Sync)"
+elif ss_ok:
+    observed["probe.sendsync"] = "compiles in " + " / ".join(ss_ok)
 
 # ---------------------------------------------------------------- 4. forbid(unsafe_code)
 if rc_default == 0:
